@@ -118,6 +118,8 @@ func init() {
 	// three witness keys (key roll-over): slices of signers / verifiers with spare capacity
 	checks["C02"].Runs = append(checks["C02"].Runs, runSpec{Harness: pkgWitness + ".VerifUpdateStep", Quick: p("logs", 2, "signers", 3, "maxproof", 0, "replay", 0), Thorough: p("logs", 2, "signers", 5, "maxproof", 0, "replay", 0), Covers: []string{"upd/accept-first-use", "upd/bad-signature"}})
 	checks["C04"].Runs = append(checks["C04"].Runs, runSpec{Harness: pkgWitness + ".VerifUpdateStep", Quick: p("logs", 1, "signers", 3, "maxproof", 0, "replay", 0), Thorough: p("logs", 1, "signers", 5, "maxproof", 0, "replay", 0), Covers: []string{"upd/accept-first-use"}})
+	// C01 under overlapping updates: two accepted updates are explained by some order (the C05 oracle)
+	checks["C01"].Runs = append(checks["C01"].Runs, runSpec{Harness: pkgWitness + ".VerifConcurrent", Quick: p("threads", 2, "logs", 1, "signers", 1, "maxproof", 0, "store", 0), Thorough: p("threads", 2, "logs", 1, "signers", 1, "maxproof", 1, "store", 1), Covers: []string{"conc/some-accepted"}})
 	// C01 across a storage fault: a cosignature handed out in a step with failing storage operations
 	// binds the next step (H-FLT with C01's monitors)
 	checks["C01"].Runs = append(checks["C01"].Runs,
@@ -133,6 +135,10 @@ func init() {
 	}})
 	reg(&checkSpec{ID: "C06", Assumptions: append([]string{"A-db: database/sql + SQLite contract model: commit is atomic and durable; an uncommitted transaction leaves no trace after a crash; real SIGKILL / file system / cgo driver are outside the claim"}, commonAssumptions...), Runs: []runSpec{
 		{Harness: pkgWitness + ".VerifCrash", Quick: p("logs", 2, "signers", 1, "maxproof", 1, "boundaries", 12), Thorough: p("logs", 3, "signers", 2, "maxproof", 2, "boundaries", 14), Covers: []string{"crash/killed", "crash/killed-after-signing", "crash/completed", "crash/killed-after-commit", "crash/killed-before-commit"}},
+		// an arbitrary earlier request on the same process, then the update; quick: the process is killed
+		// only after the update returned (what was acknowledged must survive the restart), thorough:
+		// at every boundary after a refused earlier request
+		{Harness: pkgWitness + ".VerifCrash", Quick: p("logs", 1, "signers", 1, "maxproof", 0, "boundaries", 0, "prestep", 1), Thorough: p("logs", 1, "signers", 1, "maxproof", 0, "boundaries", 14, "prestep", 1, "prestep_refused_only", 1), Covers: []string{"crash/completed", "crash/after-a-refused-request"}},
 		// driver faults before the kill (a failed COMMIT, then the crash)
 		{Harness: pkgWitness + ".VerifCrash", Quick: p("logs", 1, "signers", 1, "maxproof", 0, "boundaries", 12, "dbfaults", 1), Thorough: p("logs", 2, "signers", 1, "maxproof", 1, "boundaries", 14, "dbfaults", 1), Covers: []string{"crash/killed", "crash/completed"}},
 	}})
@@ -181,7 +187,7 @@ func init() {
 	}})
 	reg(&checkSpec{ID: "C16", Assumptions: append([]string{"gorilla/mux route matching is outside the claim (mux.Vars returns the symbolic id)", "log-list order: the stores are iterated in insertion order by the engine; JSON encoding of a string list is an injective constructor"}, commonAssumptions...), Runs: []runSpec{
 		{Harness: pkgHTTP + ".VerifReadAPI", Quick: p("logs", 2, "signers", 1, "maxproof", 1, "steps", 1, "store", 0), Thorough: p("logs", 3, "signers", 2, "maxproof", 2, "steps", 1, "store", 0), Covers: []string{"http/found", "http/unknown-id", "http/known-id-nothing-stored", "http/first-accept-adds-entry", "http/refused-first-submission"}},
-		{Harness: pkgHTTP + ".VerifReadAPI", Quick: p("logs", 1, "signers", 1, "maxproof", 0, "steps", 0, "store", 1, "getfaults", 1), Thorough: p("logs", 2, "signers", 1, "maxproof", 0, "steps", 0, "store", 1, "getfaults", 1), Covers: []string{"http/read-fault"}},
+		{Harness: pkgHTTP + ".VerifReadAPI", Quick: p("logs", 2, "signers", 1, "maxproof", 0, "steps", 0, "store", 1, "getfaults", 1), Thorough: p("logs", 3, "signers", 1, "maxproof", 0, "steps", 0, "store", 1, "getfaults", 1), Covers: []string{"http/read-fault"}},
 		{Harness: pkgHTTP + ".VerifReadAPI", Quick: p("logs", 1, "signers", 1, "maxproof", 1, "steps", 2, "store", 0), Thorough: p("logs", 2, "signers", 1, "maxproof", 1, "steps", 2, "store", 0), Covers: []string{"http/found", "http/first-accept-adds-entry", "http/refused-first-submission", "http/second-update-accepted"}},
 		{Harness: pkgHTTP + ".VerifReadAPI", Quick: p("logs", 2, "signers", 1, "maxproof", 1, "steps", 1, "store", 1), Thorough: p("logs", 3, "signers", 2, "maxproof", 2, "steps", 1, "store", 1), Covers: []string{"http/found", "http/unknown-id", "http/known-id-nothing-stored", "http/first-accept-adds-entry", "http/refused-first-submission"}},
 		{Harness: pkgHTTP + ".VerifReadAPI", Quick: p("logs", 1, "signers", 1, "maxproof", 1, "steps", 2, "store", 1), Thorough: p("logs", 2, "signers", 1, "maxproof", 1, "steps", 2, "store", 1), Covers: []string{"http/found", "http/first-accept-adds-entry", "http/refused-first-submission", "http/second-update-accepted"}},
@@ -197,6 +203,8 @@ func init() {
 		{Harness: pkgPixel + ".VerifFeedHostile", Quick: p("attempts", 1), Thorough: p("attempts", 2), Unwind: 140, Covers: []string{"hostile/cycle-succeeds", "hostile/cycle-fails", "hostile/proof-built"}},
 		{Harness: pkgRekor + ".VerifFeedHostile", Quick: p("attempts", 1, "json_maxlist", 2), Thorough: p("attempts", 2, "json_maxlist", 3), Covers: []string{"rekor/cycle-succeeds", "rekor/cycle-fails", "rekor/proof-fetched"}},
 		{Harness: pkgPixel + ".VerifReadTiles", Domain: sym.DomString, Solver: sym.Z3, Covers: []string{"pixel/readtiles-ok"}},
+		// the sumdb tile reader on an arbitrary tile and an arbitrary (short, long, empty) HTTP body
+		{Harness: pkgSumdb + ".VerifTilePath", Domain: sym.DomString, Solver: sym.Z3, Quick: p(), Thorough: p(), Covers: []string{"tile/full-deep", "tile/partial-shallow"}},
 		{Harness: pkgClient + ".VerifDataToLeaves", Domain: sym.DomArray, Quick: p("maxlen", 6), Thorough: p("maxlen", 10), Covers: []string{"leaves/two"}},
 		{Harness: pkgBastion + ".VerifServeArbitraryBody", Domain: sym.DomString, Solver: sym.CVC5, Quick: p("k", 2, "io_faults", 1), Thorough: p("k", 3, "io_faults", 1), Unwind: 4, CutOnUnwind: true, Covers: []string{"serve/200", "serve/400", "serve/500"}},
 		{Harness: pkgWitness + ".VerifProofUnmarshalArbitrary", Domain: sym.DomString, Solver: sym.CVC5, Quick: p("maxsplit", 3), Thorough: p("maxsplit", 5), Covers: []string{"proof/arbitrary-two-lines", "proof/arbitrary-refused"}},
